@@ -59,6 +59,10 @@ func checkC01(c *Check) {
 			c.Anchor("C01.R7", m, false)
 		}
 	}
+	// R8: every path through a handler sets a verdict. A Process that returns without having written the response
+	// leaves Status nil; a nil-tolerant reader in the server loop (GetStatus().GetCode()) would read that as OK.
+	c.Rule("C01.R8", "verdict totality: every path from entry to a normal return of every Handler.Process implementation sets a verdict (the rule C15.R3, filed here because an unset verdict is read as code 0 = OK by a nil-tolerant getter).", 2)
+	refile(c, "C01.R8", func() { c15R3(c, R) })
 	// the refreshed token object is built in the refresh helper: an in-place merge into the object the store
 	// handed out would make unvalidated tokens visible to concurrent checks before validation
 	if R.Refresh != nil {
